@@ -2031,6 +2031,54 @@ def rt_c04(tier="quick", first_only=False, count=None):
     return fails
 
 
+def rt_c18_flows(tier="quick", first_only=False, count=None):
+    """finite log_prob => finite gradients w.r.t. the input and every parameter, for whole flows at magnitudes up to 1e4
+    (float64 and float32), with initial and scaled-up weights"""
+    import equinox as eqx
+    import flowjax.bijections as B
+    import flowjax.distributions as Dm
+    import flowjax.flows as Fl
+    import jax.random as jr
+
+    fails, n = [], 0
+    k = jr.PRNGKey(4)
+    for dt in (jnp.float64, jnp.float32):
+        base = Dm.Normal(jnp.zeros(2, dt), jnp.ones(2, dt))
+        cfgs = [("planar_flow(tanh)", lambda: Fl.planar_flow(k, base_dist=base, flow_layers=2), None), ("planar_flow(leaky 0.2)", lambda: Fl.planar_flow(k, base_dist=base, flow_layers=2, negative_slope=0.2), None),
+                ("planar_flow(tanh, cond)", lambda: Fl.planar_flow(k, base_dist=base, cond_dim=2, flow_layers=2, width_size=4, depth=1), 2),
+                ("masked_autoregressive_flow", lambda: Fl.masked_autoregressive_flow(k, base_dist=base, flow_layers=2, nn_width=4), None),
+                ("coupling_flow(spline)", lambda: Fl.coupling_flow(k, base_dist=base, transformer=B.RationalQuadraticSpline(knots=4, interval=2), flow_layers=2, nn_width=4), None)]
+        for name, mk, cd in cfgs:
+            d0 = mk()
+            for wscale in (1.0, 10.0) + ((100.0,) if tier == "thorough" else ()):
+                params, static = eqx.partition(d0, eqx.is_inexact_array)
+                params = jax.tree_util.tree_map(lambda l: (l * wscale).astype(l.dtype), params)
+                for mag in (1.0, 1e2, 1e3, 1e4):
+                    n += 1
+                    x = jnp.asarray([mag, -0.7 * mag], dt)
+                    c = None if cd is None else jnp.asarray([mag, -mag], dt)
+
+                    def lp(p_, x_):
+                        return eqx.combine(p_, static).log_prob(x_, c)
+
+                    try:
+                        v = lp(params, x)
+                        if not bool(jnp.isfinite(v)):
+                            continue
+                        gp, gx = jax.grad(lp, argnums=(0, 1))(params, x)
+                    except Exception as ex:  # noqa: BLE001
+                        fails.append(dict(what=f"{name} ({np.dtype(dt).name}, weights x{wscale:g}) at |x| = {mag:g}: gradient raised {type(ex).__name__}: {str(ex)[:100]}", case=dict(flow=name, dtype=np.dtype(dt).name, wscale=wscale, mag=mag)))
+                        continue
+                    bad = [l for l in jax.tree_util.tree_leaves(gp) + [gx] if not bool(jnp.all(jnp.isfinite(l)))]
+                    if bad:
+                        fails.append(dict(what=f"{name} ({np.dtype(dt).name}, weights x{wscale:g}): log_prob({np.asarray(x).tolist()}) = {float(v):.6g} is finite but {len(bad)} gradient leaf/leaves (input / parameters) are not", case=dict(flow=name, dtype=np.dtype(dt).name, wscale=wscale, mag=mag)))
+                        if first_only:
+                            return fails
+    if count is not None:
+        count.append(n)
+    return fails
+
+
 def rt_simple_fwd(tier="quick", first_only=False, count=None, only=None):
     """documented forward functions of Flip / Permute / AdditiveCondition against independent numpy references, ranks 0-3"""
     import flowjax.bijections as B
